@@ -289,16 +289,20 @@ def simpleProofsFromMap (H : Bytes → Bytes) (entries : List (Bytes × Bytes)) 
 def mapLeaf (H : Bytes → Bytes) (key value : Bytes) : Bytes := KV.bytes ⟨key, H value⟩
 
 inductive ValueOpErr where
-  | leafHash | root
+  | leafHash | invalidProof | root
 deriving Repr, DecidableEq
 
 /-- `SimpleValueOp.Run([value])` (proof_simple_value.go) followed by the root
 comparison of `ProofOperators.Verify`: hash the value, wrap `<key, vhash>` as a
-KVPair leaf, compare its leaf hash with the proof's, compute the root, compare. -/
+KVPair leaf, compare its leaf hash with the proof's, compute the root — since
+/repo 4d9045b816 a nil computed root (Index/Total/Aunts not a position) is an
+error of `Run` — and compare it with the expected root (`bytes.Equal`). -/
 def valueOpVerify (H : Bytes → Bytes) (key value : Bytes) (root : Option Bytes) (p : SimpleProof) :
     Except ValueOpErr Unit :=
   if ¬ bytesEqual (some (leafHash H (mapLeaf H key value))) p.leafHash then .error .leafHash
-  else if ¬ bytesEqual root (p.computeRootHash H) then .error .root
-  else .ok ()
+  else
+    match p.computeRootHash H with
+    | none => .error .invalidProof
+    | some rootHash => if ¬ bytesEqual root (some rootHash) then .error .root else .ok ()
 
 end GnoVerif.C25
